@@ -504,6 +504,22 @@ def interesting(s):
     return i >= 0 and s.find("]", i + 2) >= 0
 
 
+def fast_check(out, s):
+    """a string in which no tag can occur (no '[' with a ']' two or more places later): escape must
+    leave it alone and render must return it unstyled.  One escape + one render, no oracle."""
+    from rich.markup import escape, render
+
+    e = escape(s)
+    try:
+        t = render(s, emoji=False)
+        ok = e == s and t.plain == strip_ctl(s) and not t.spans
+        what = f"escape -> {e!r}, render -> {t.plain!r} {t.spans!r}"
+    except Exception as exc:
+        ok, what = False, f"render raised {exc!r}"
+    out.prop(ok, "render_escape", s, "no tag can occur in this text, yet " + what)
+    out.prop(ok, "render:plain", s, "no tag can occur in this text, yet " + what)
+
+
 def run_driver_local(cases):
     """worker-side diff (thorough tier): returns (compared, agreed, unmodelled, mismatches[:5])"""
     lines = [fn + "\t" + "\t".join(str(a) for a in args) for fn, args, _a, _s, _r in cases]
@@ -553,7 +569,7 @@ def work_shard(job):
         elif interesting(s):
             check_string(out, s, sort_flag, level=1)
         else:
-            check_string(out, s, sort_flag, level=0)
+            fast_check(out, s)
     res = {"n": n, "fails": out.fails[:40], "nfails": len(out.fails), "nprop": out.nprop, "notes": out.notes}
     # keep one failure per (site, finding), the shortest
     best = {}
